@@ -63,11 +63,11 @@ Proof.
   destruct best as [b0|]; [destruct (N.ltb b0 x)|]; apply (G _ _ H).
 Qed.
 
-Lemma resolve_version_ge : forall req versions existing cached v y,
-  resolve_version W req versions existing cached = Some (v, y) ->
+Lemma resolve_version_ge : forall req versions existing cached late v y,
+  resolve_version W req versions existing cached late = Some (v, y) ->
   forall s, In s existing -> matches W req s = true -> (s <= v)%N.
 Proof.
-  intros req versions existing cached v y H s Hin Hm. unfold resolve_version in H.
+  intros req versions existing cached late v y H s Hin Hm. unfold resolve_version in H.
   destruct (best_match W req existing None) as [v0|] eqn:E0.
   - inversion H; subst. apply (proj1 (best_match_ge _ _ _ _ E0) s Hin Hm).
   - rewrite (best_match_none _ _ _ E0 s Hin) in Hm. discriminate.
@@ -206,10 +206,10 @@ Proof.
     pose proof (probe_all_pinv (jr_pkg it) cands st cached H) as Hp.
     destruct (probe_all W st (jr_pkg it) cands cached) as [st1 cached']. exact Hp. }
   destruct pr as [[st1 memo1] cached]. cbn [fst] in Hpr.
-  destruct (resolve_version W (jr_req it) versions (versions_by_name (js_pkgs st1) (jr_pkg it)) cached) as [[v yanked]|] eqn:Er.
+  destruct (resolve_version W (jr_req it) versions (versions_by_name (js_pkgs st1) (jr_pkg it)) cached (late_of W (jr_pkg it))) as [[v yanked]|] eqn:Er.
   - apply IH. apply pinv_queue_ver. destruct Hpr as [A [B [C1 C2]]]. split; [|split; [|split]].
     + intros req v0 Hl. cbn in Hl. destruct yanked; cbn in Hl; apply lookup_set_assoc_inv in Hl;
-        (destruct Hl as [[-> ->]|Hl]; [cbn; left; apply (resolve_version_matches W _ _ _ _ _ _ Er) | apply (A req v0 Hl)]).
+        (destruct Hl as [[-> ->]|Hl]; [cbn; left; apply (resolve_version_matches W _ _ _ _ _ _ _ Er) | apply (A req v0 Hl)]).
     + intros v0 e Hin. apply (B v0 e). destruct yanked; exact Hin.
     + intros r p0 v0 Hin. apply C1 in Hin. destruct yanked; cbn; apply in_add2; exact Hin.
     + intros req p0 v0 Hl.
@@ -217,7 +217,7 @@ Proof.
         by (destruct yanked; exact Hl).
       apply lookup_set_assoc_inv in Hl'. destruct Hl' as [[-> Heq]|Hl']; [|apply (C2 req p0 v0 Hl')].
       inversion Heq; subst p0 v0. right. intros s Hs Hm.
-      apply (resolve_version_ge _ _ _ _ _ _ Er s (seeded_by_name _ _ _ C1 Hs) Hm).
+      apply (resolve_version_ge _ _ _ _ _ _ _ Er s (seeded_by_name _ _ _ C1 Hs) Hm).
   - destruct (js_busting st1); [apply IH; pext Hpr | exact Hpr].
 Qed.
 
